@@ -22,14 +22,6 @@ def enumByName (n : String) : Option EnumSpec :=
 
 def checksumTypes : List String := ["Md5Checksum", "Sha1Checksum", "Sha256Checksum", "Sha512Checksum"]
 
-/-- insertion sort of strings by code point order -/
-def sortStrs (l : List Str) : List Str :=
-  l.foldl (fun acc x => ins x acc) []
-where
-  ins (x : Str) : List Str → List Str
-    | [] => [x]
-    | y :: r => if strLt y x then y :: ins x r else x :: y :: r
-
 def showOrigin : Origin → String
   | .commit s => s!"Commit {encStr s}"
   | .other s => s!"Other {encStr s}"
@@ -160,9 +152,7 @@ def handlePrint (ty : String) (args : List String) : Option String :=
         | some _ =>
           let m := (ks.zip vs).foldl (fun m kv => mapInsert kv.1 kv.2 m) []
           let e : PkgEntry := ⟨p, t, sec, pr.toList, m⟩
-          -- observable: the base followed by the extra pieces in code-point order (the real
-          -- iteration order is unspecified; the worker normalises the same way)
-          encStr (e.printBase ++ (sortStrs (extraPieces m)).flatten))
+          encStr (PkgEntry.print e))
   | "BuildProfile", [k, x] => do
     let x ← decStr x
     match k with
